@@ -1506,7 +1506,7 @@ func (n *node) MakeRef() gen.Ref {
 	ref.Node = n.name
 	ref.Creation = n.creation
 	id := atomic.AddUint64(&n.uniqID, 1)
-	ref.ID[0] = id & ((2 << 17) - 1)
+	ref.ID[0] = id
 	ref.ID[1] = id >> 46
 	return ref
 }
